@@ -360,6 +360,10 @@ func (pg *ProgGen) stmt(depth int) []mt.Stmt {
 		f := mt.For{Val: fmt.Sprintf("it%d", pg.nLoop), Seq: seq}
 		if r.P(1, 4) && kind == "int" {
 			f.Key = fmt.Sprintf("ki%d", pg.nLoop)
+		} else if kind == "str" && core.Hash64(fmt.Sprint(pg.nLoop, pg.Fors, pg.Nested), "strkey")%3 == 0 {
+			// (decided without drawing from the generator's stream, so every other choice of the program stays what it was)
+			// the key of a loop over a string is the character's position, whatever its width in bytes
+			f.Key = fmt.Sprintf("ki%d", pg.nLoop)
 		}
 		li, ls := len(pg.loopInts), len(pg.loopStrs)
 		if kind == "int" {
